@@ -5,6 +5,7 @@ package dcs
 import (
 	"fmt"
 	"strings"
+	"sync/atomic"
 	"testing"
 	"testing/synctest"
 	"time"
@@ -58,6 +59,7 @@ func TestVerifC03Lock(t *testing.T) {
 		}
 		var clients []*cli
 		var dead []*zkClient
+		var pendingRivals atomic.Int32
 		defer func() {
 			for _, cl := range clients {
 				cl.d.Close()
@@ -68,6 +70,11 @@ func TestVerifC03Lock(t *testing.T) {
 			srv.Stop()
 			time.Sleep(2 * time.Second)
 			synctest.Wait()
+			// a rival that was acting inside the interceptor may still be in its (bounded) retry loop
+			for i := 0; i < 1800 && pendingRivals.Load() > 0; i++ {
+				time.Sleep(time.Second)
+				synctest.Wait()
+			}
 			if g := vs.DurablyBlocked(); len(g) > 0 {
 				t.Logf("LEFTOVER GOROUTINES:\n%s", strings.Join(g, "\n\n"))
 			}
@@ -214,9 +221,11 @@ func TestVerifC03Lock(t *testing.T) {
 						// the armed client's server goroutine for good)
 						healthy := false
 						srv.Link(rv.name).Set(func(l *vs.ZKLink) { healthy = !l.Refuse && !l.DropC2S && !l.DropS2C && l.Delay == 0 })
-						if !healthy || serverDown {
+						if !healthy || serverDown || arm[rv.name] != nil {
 							return
 						}
+						pendingRivals.Add(1)
+						defer pendingRivals.Add(-1)
 						if rv.d.AcquireLock("manager") {
 							told[rv.slot] = true
 							c.Tracef("%v rival %s acquired inside %s's request", time.Now().Format("15:04:05.000"), rv.name, cl.name)
